@@ -17,7 +17,9 @@ META = dict(
                "conflict independently, so single conflicts x selections is the decisive space. Abstract names are "
                "concretised to hostile unicode paths, file ids and action texts (rotating schemes) on real trees.",
     level_note="The stanza byte format is not modelled (identity through the real round trip is the law). Paths contain no "
-               "newline. merge_modified is specified as: recorded hashes of versioned files whose text still has that hash. "
+               "newline. merge_modified is specified as: recorded hashes of the files that are still versioned at the re-open and "
+               "whose text still has that hash (files are un-versioned / modified between set and re-open, in every record "
+               "position). "
                "Trusted: TLC, the JSON bridge, the projection of Conflict objects to records.",
 )
 
@@ -45,7 +47,8 @@ SCHEMES = [
 ]
 TREE_PATHS = [(("a",), "fa", "file"), (("d",), "fd", "directory"), (("d", "a"), "fda", "file"),
               (("d", "d"), "fdd", "directory"), (("d", "d", "a"), "fdda", "file")]
-MM_FILES = {"a": ("a",), "da": ("d", "a"), "e": ("e",)}
+MM_FILES = {"a": ("a",), "da": ("d", "a"), "dda": ("d", "d", "a"), "e": ("e",)}
+MM_IDS = {"a": "fa", "da": "fda", "dda": "fdda"}
 
 
 class Tree:
@@ -141,17 +144,39 @@ def _sel_rows(sub, tree, lst, cases):
     return rows
 
 
-def _mm_row(sub, tree, c):
-    cur = {n: tree.sha(tree.content[segs]) for n, segs in MM_FILES.items()}
+def _mm_row(sub, tree, c, serial):
+    """set_merge_modified(records in order) -> the listed files are un-versioned / modified -> re-open -> merge_modified()."""
+    # fresh fixture state: every file versioned under its id, with a text of its own for this row
+    wt = tree.open()
+    texts = {}
+    for n, segs in MM_FILES.items():
+        texts[n] = ("text of %s, row %d\n" % (n, serial)).encode()
+        with open(os.path.join(tree.dir, *[tree.s["seg"][x] for x in segs]), "wb") as f:
+            f.write(texts[n])
+        if n in MM_IDS and wt.path2id(tree.cpath(segs)) is None:
+            wt.add([tree.cpath(segs)], ids=[tree.s["ids"][MM_IDS[n]]])
+    cur = {n: tree.sha(t) for n, t in texts.items()}
     stale = tree.sha(b"stale text\n")
-    given = {}
-    for n, v in c["set"].items():
-        if v != NONE:
-            given[tree.cpath(MM_FILES[n])] = cur[n] if v == "cur" else stale
+    given = {}                                   # insertion order = order of the records in the file
+    for r in c["recs"]:
+        given[tree.cpath(MM_FILES[r["name"]])] = cur[r["name"]] if r["hash"] == "cur" else stale
     tree.open().set_merge_modified(given)
+    # what happens before the tree is opened again
+    wt = tree.open()
+    for i, r in enumerate(c["recs"]):
+        p = tree.cpath(MM_FILES[r["name"]])
+        if r["after"] == "unv":
+            with wt.lock_tree_write():
+                if (serial + i) % 2:
+                    wt.remove([p], keep_files=True, verbose=False)
+                else:
+                    wt.unversion([p])
+        elif r["after"] == "mod":
+            with open(os.path.join(tree.dir, *[tree.s["seg"][x] for x in MM_FILES[r["name"]]]), "wb") as f:
+                f.write(b"changed by the user: " + texts[r["name"]])
     back = tree.open().merge_modified()
     inv = {tree.cpath(segs): n for n, segs in MM_FILES.items()}
-    out = {n: NONE for n in c["set"]}
+    out = {n: NONE for n in c["names"]}
     unknown = False
     for p, h in back.items():
         n = inv.get(p)
@@ -162,8 +187,8 @@ def _mm_row(sub, tree, c):
     if unknown:
         out = {n: "?" for n in out}
     sub.count(1)
-    if any(v != NONE for v in c["set"].values()):
-        sub.nontrivial(json.dumps(c["set"], sort_keys=True))
+    if c["recs"]:
+        sub.nontrivial(json.dumps(c["recs"], sort_keys=True))
     return {"c": c, "impl": {"back": out}}
 
 
@@ -177,8 +202,8 @@ def _replay(sub, chunk):
                 trees[si] = Tree(os.path.join(sub.workdir, "t%d" % si), SCHEMES[si])
             tree = trees[si]
             if lst is None:
-                for c in cases:
-                    r = _mm_row(sub, tree, c)
+                for serial, c in cases:
+                    r = _mm_row(sub, tree, c, serial)
                     r["scheme"] = si
                     rows.append(r)
             else:
@@ -226,13 +251,18 @@ def run(ctx):
         for si in sorted(set(schemes)):
             items.append((si, lst, groups[key]))
             n += len(groups[key])
+    # merge-modified cases: rotating naming scheme, in batches so that they spread over the workers
+    mm.sort(key=lambda c: json.dumps(c, sort_keys=True))
     for si in range(len(SCHEMES)):
-        items.append((si, None, mm))
-        n += len(mm)
+        mine = [(i, c) for i, c in enumerate(mm) if i % len(SCHEMES) == si]
+        for off in range(0, len(mine), 25):
+            items.append((si, None, mine[off:off + 25]))
+        n += len(mine)
     ctx.rule("TLC enumerates: every well-formed single conflict (10 types x paths x optional conflict path x file ids) x "
              "every selection of <= 2 of {root, a, d, d/a, e} x recurse; every list of 2..%(MaxList)s conflicts from a mixed "
-             "universe of 12 x 4 selections x recurse; every {none, current, stale} hash assignment to 2 versioned + 1 "
-             "unversioned file. Each list is stored on a real tree under a rotating hostile-unicode naming scheme (5 schemes), "
+             "universe of 12 x 4 selections x recurse; merge-modified: every ordered selection of 3 versioned files "
+             "(thorough: + 1 unversioned), each recorded with the current hash and then kept / un-versioned / modified "
+             "before the re-open, or recorded with a stale hash. Each list is stored on a real tree under a rotating hostile-unicode naming scheme (5 schemes), "
              "re-opened, selected, resolved, re-opened. Non-trivial = non-empty list / non-empty hash map" % consts)
     ctx.cov["exhaustive"] = True
     core.fork_map(ctx, _replay, items)
